@@ -380,7 +380,7 @@ func propC12(c *Check) {
 		}
 		// once a share was credited (the validator record stored), the reduced pool is stored on every path to success
 		for i, vset := range p.FindCalls(dr, `^Validators\.Set\(`) {
-			c.requireFactFrom(dr, "R2", fmt.Sprintf("pool-stored-after-share#%d", i), lit("(RewardPool.Set(RewardPool.Get()#0) == nil)"), vset, successTargets(dr), "success exit")
+			c.requireFactFrom(dr, "R2", fmt.Sprintf("pool-stored-after-share#%d", i), lit("(RewardPool.Set(RewardPool.Get()#0) == nil)"), vset, nil, "success exit")
 		}
 		c.RequireFact(dr, "R2", "total-power-nonzero", lit(NE("0", "φ{(@ + "+vi+".Power)|0}")), instrSet(callInstrs(p.FindCalls(dr, `^Validators\.Get\(`))), "distribution")
 		vs := p.FindCalls(dr, `^Validators\.Set\(`)
